@@ -240,7 +240,7 @@ structure ValEnv where
 
 def ValEnv.get (env : ValEnv) (v : VName) : Option Val := (env.vals.find? (·.1 == v)).map (·.2)
 
-/-- `add_variable` (after the `fix:`) -/
+/-- `add_variable` (after the `fix:` 5f60a27) -/
 def ValEnv.add (env : ValEnv) (v : VName) (x : Val) : ValEnv :=
   if env.nonConstant.contains v then env
   else match env.get v with
@@ -391,6 +391,21 @@ def valPass (env : ValEnv) (blocks : List Block) : List Block × ValEnv × Bool 
     else
       let (ss, env', c') := b.stmts.foldl (step b.npreds) ([], env, false)
       (bs ++ [{ b with stmts := ss }], env', c')) ([], env, false)
+
+/-- the pre-pass of `Cfg::propagate_values`: an unversioned variable (signal, component) assigned by a second
+    substitution that is not an element-wise update is marked as not constant -/
+def multiStep (acc : List VName × List VName) : Stmt → List VName × List VName
+  | .sub _ v _ _ rhe =>
+    if v.version.isNone && !isUpd rhe then
+      (if acc.1.contains v then (acc.1, v :: acc.2) else (v :: acc.1, acc.2))
+    else acc
+  | _ => acc
+
+def multiOf (P : List Stmt) : List VName := (P.foldl multiStep ([], [])).2
+
+/-- the environment the loop starts from -/
+def valInit (p : Int) (bs : List Block) : ValEnv :=
+  { prime := p, vals := [], nonConstant := multiOf (bs.flatMap (·.stmts)) }
 
 def valLoop : Nat → ValEnv → List Block → List Block × Bool
   | 0, _, bs => (bs, false)
